@@ -785,6 +785,12 @@ def extract_h2(repo, parents):
     out.append("/-- the flow wait names its own stream (`flow_stream_id=stream_id`) and `_receive_events` raises RemoteProtocolError for a StreamReset")
     out.append("already filed for that stream, under the read lock and before it reads the network -/")
     out.append("def flowWaitSeesResets : Bool := " + ("true" if sees_resets else "false"))
+    # ---- whatever a read made h2 queue (PING / SETTINGS acknowledgements, window updates) leaves with the reader ------------
+    fre2 = _find_func(tree, "_receive_events", cls=cls)
+    last = fre2.body[-1]
+    flushes = isinstance(last, ast.Expr) and ast.unparse(last.value) == "await self._write_outgoing_data(request)"
+    out.append("/-- the last statement of `_receive_events`, outside the read lock and under no condition, is `await self._write_outgoing_data(request)` -/")
+    out.append("def receiveEventsAlwaysFlushes : Bool := " + ("true" if flushes else "false"))
     fn = _find_func(tree, "_send_stream_data", cls=cls)
     want = ["while data:\n    max_flow = await self._wait_for_outgoing_flow(request, stream_id)\n    chunk_size = min(len(data), max_flow)\n"
             "    chunk, data = (data[:chunk_size], data[chunk_size:])\n    self._h2_state.send_data(stream_id, chunk)\n"
